@@ -310,10 +310,20 @@ func c14Eviction(p *Prog, r *Report) {
 			r.Fn(FName(less))
 			okLess := false
 			for _, ret := range Returns(less) {
-				e := BuildExpr(p, ReturnOperand(ret, 0), nil)
-				if e.Op == "cmp<" && strings.HasSuffix(e.Args[0].String(), ".Priority") && strings.HasSuffix(e.Args[1].String(), ".Priority") &&
-					strings.Contains(e.Args[0].String(), "p1") && strings.Contains(e.Args[1].String(), "p2") {
-					okLess = true
+				if cmp, ok := CanonCmp(BuildExpr(p, ReturnOperand(ret, 0), nil)); ok && cmp.Op == ">" {
+					// item[j].Priority - item[i].Priority > 0
+					var pi, pj string
+					for a := range cmp.D.P.atoms() {
+						if strings.HasSuffix(a, ".Priority") && strings.Contains(a, ",p1)") {
+							pi = a
+						}
+						if strings.HasSuffix(a, ".Priority") && strings.Contains(a, ",p2)") {
+							pj = a
+						}
+					}
+					if pi != "" && pj != "" && cmp.Equal(ParseLin(pj+" - "+pi, ">")) {
+						okLess = true
+					}
 				}
 			}
 			r.Check(okLess, "C14.R3", "collections.pqImpl.Less: heap ordered by expiry (earliest first)", p.FuncPos(less), "item[i].Priority < item[j].Priority", "the heap is not ordered by earliest expiry: the evicted source is not the one nearest to expiry")
